@@ -8,6 +8,15 @@ package main
 //	a == b    b == a    a != b    a in [b]    switch a { case b: … }
 //	a <= b    a >= b                      (only when one is an int and the other a float)
 //	a in [c, b]   a in [b, c]   switch a { case c: 1; case b: 2 }   switch a { case c, b: … }
+//	switch a { case f, f, b, f … }   -- b at every position among >= 4 case values (separate
+//	                                    cases, one multi-value case, 6 values in 3 cases), the
+//	                                    others literals of b's kind whose equality with a is observed
+//
+// Slice operands are also supplied as views of ONE backing array (a[i:j] vs a[k:l],
+// all ordered pairs of views of a dozen arrays, taken by the script, by the host, from
+// a typed host slice, nested in other containers): the reference is the structural one.
+// A concurrent phase (c06_ext.go) repeats comparisons on several goroutines at once:
+// the outcome for a pair must be the sequentially observed one, every time.
 //
 // with the operands supplied as literals, as host-bound variables, as container
 // elements (and, in the random phase, through script variables, map members,
@@ -546,7 +555,8 @@ type c06Obs struct {
 
 type c06Run struct {
 	c        *wk.Case
-	reported map[string]bool // per case: each signature once, the rest counted
+	reported map[string]bool      // per case: each signature once, the rest counted
+	fcache   map[string][2][]bool // wide switches: observed subject == filler, per (prelude, subject expression, subject value)
 }
 
 func (r *c06Run) viol(sig, detail string, input interface{}) {
@@ -807,6 +817,8 @@ func c06Pool() []c06V {
 		"1000000", "1000000.0", "1e6", "1e+06", "1.0e6", "-1000000", "-1e6", "123456789", "1.23456789e8", "1000000000000000", "1e15",
 		"9007199254740992", "9007199254740993", "9007199254740992.0", "9223372036854775807", "-9223372036854775808", "9223372036854775808",
 		"1e21", "1000000000000000000000", "1e-7", "0.0000001", "1.7976931348623157e308", "5e-324", "1e400",
+		// underflows float64: denotes no integer; against the float 0 the statement is read both ways (laws only)
+		"1e-400",
 		// fractions far below any fixed working precision: they denote no integer
 		"1.9999999999999999999999999999999999999999999999", "2.0000000000000000000000000000000000000000000001",
 		"0.99999999999999999999999999999999999999999999", "1000000.000000000000000000000000000000000000000001",
@@ -883,6 +895,13 @@ func (r *c06Run) fullPair(base *env.Env, a, b, third c06V) {
 		}
 		if o := r.observe(base, p); o != nil {
 			all = append(all, res{p.mode, o})
+			// the same relation in switches with >= 4 case values
+			switch p.mode {
+			case "literal": // all case values literals, b at every position
+				r.wide(base, p, o, p.B, []int{0, 1, 2, 3}, true)
+			case "variable": // b's case value is not a literal
+				r.wide(base, p, o, p.B, []int{len(all) % 4}, false)
+			}
 		}
 	}
 	if len(all) == 0 {
@@ -1317,36 +1336,56 @@ func c06RenderBinds(b map[string]interface{}) map[string]string {
 func init() {
 	pool := c06Pool()
 	n := len(pool)
+	viewBases := c06ViewBases()
+	nViews := len(viewBases)
 	wk.Register(&wk.Engine{
 		ID: "C06",
 		Plan: func(tier string) fw.Plan {
-			nRand := 400
+			nRand, nConc := 400, 12
 			if tier == "thorough" {
-				nRand = 25000
+				nRand, nConc = 25000, 300
 			}
 			return fw.Plan{
 				Level: "exploration",
 				Rule: fmt.Sprintf("phase enum: ALL %d ordered pairs of a pool of %d values (nil, booleans, boundary int64 incl. 10^5, 10^6, 10^15, 2^53±1, ±2^63; boundary float64 incl. ±0, 1e5, 1e6, 2^53, 1e21, ±Inf, NaN; "+
 					"decimal-numeral strings in integer/fraction/exponent spelling, non-numerals, strconv-only spellings; nested slices and maps), each observed as a==b, b==a, a!=b, a in [b], switch a {case b}, (a<=b, a>=b for int/float) "+
-					"with operands as literals, host variables and container elements, plus list membership / multi-case switch with a third value; complete enumeration every run. "+
+					"with operands as literals, host variables and container elements, plus list membership / multi-case switch with a third value, plus switches over >= 4 case values "+
+					"(b at every position among literal case values of its kind: 4 separate cases, one 4-value case, 6 values in 3 cases; expectation from the observed a==b and a==filler); "+
+					"then ALL ordered pairs of views [i:j] of each of %d backing arrays (same start/different length, different start/equal elements, empty tails) taken by the script, by the host, "+
+					"from a typed host slice and nested in containers; complete enumeration every run. "+
 					"phase rand: 40 PRNG pairs per case (70%% related: retyped, respelled, neighbouring, one-leaf-changed), operands supplied through a random provenance "+
 					"(literal, host variable, script variable, slice element, map member, function result, typed host slice element, nested script container), judged in both operand orders. "+
-					"Every evaluation is one vm.Execute whose boolean enters an algebraic law or a reference rule of the statement (non-trivial); distinct = distinct (source, bound values).", n*n, n),
+					"Each rand case also takes 6 random view pairs of random arrays and one wide switch per pair. "+
+					"phase conc: 4 or 8 goroutines, each with its own environment and 3 pairs (its own integer vs an exact fraction/exponent numeral of it, vs the numeral of another goroutine's integer, and a random pair), "+
+					"count the outcomes of ==, both orders, !=, in, switch and a 4-value switch over 1500 iterations in one vm.Execute or 30 short ones; every count must be iterations x the outcome observed sequentially beforehand (no timing in the verdict). "+
+					"Every evaluation is one vm.Execute whose boolean enters an algebraic law or a reference rule of the statement (non-trivial); distinct = distinct (source, bound values).", n*n, n, nViews),
 				Assumptions: []string{
 					"Go's ==, strconv.ParseFloat and math/big are the reference for 'same primitive type', 'denotes that number' and exact arithmetic",
 					"the int/float rule is judged against anko's own observed <= and >= as the statement prescribes; exact-math disagreement is only counted",
 					"bool vs non-bool, strconv-only spellings (0x10, inf, +5, 1_0, .5, 1E6), numerals equal only after float64 rounding, cross-type container leaves and NaN leaves are unspecified: laws only",
+					"views of one backing array are judged as the values they hold (structural rule); with NaN or cross-type leaves only the laws are checked, so the identity shortcut for a container compared with an alias of itself is accepted",
+					"equality is a relation on values, so an outcome may not depend on what other goroutines compare at the same time; the concurrent phase can only refute this when the scheduler interleaves the runs (best effort, no wall-clock verdict)",
 				},
 				Phases: []fw.Phase{
-					{Name: "enum", Cases: n + 1, Chunk: 6, Exhaust: true, TimeoutS: 600},
-					{Name: "rand", Cases: nRand, Chunk: 250, TimeoutS: 900},
+					{Name: "enum", Cases: n + 1 + nViews, Chunk: 6, Exhaust: true, TimeoutS: 600},
+					{Name: "rand", Cases: nRand, Chunk: 50, TimeoutS: 900},
+					{Name: "conc", Cases: nConc, Chunk: 2, Jobs: 3, TimeoutS: 900},
 				},
 			}
 		},
 		Run: func(c *wk.Case) {
 			base := ank.NewCoreEnv()
 			r := &c06Run{c: c, reported: map[string]bool{}}
+			if c.Phase == "conc" {
+				c06Conc(c, pool)
+				return
+			}
 			if c.Phase == "enum" {
+				if c.Index > n {
+					// all ordered pairs of views of one backing array
+					r.viewsOf(base, viewBases[c.Index-n-1])
+					return
+				}
 				if c.Index == 0 {
 					// explicit witnesses of the listed findings, both operand orders
 					for j, w := range c06Witnesses {
@@ -1389,11 +1428,25 @@ func init() {
 				}
 				rb := c06RenderBinds(binds)
 				mode := howA + "/" + howB
-				r.observe(base, &c06Pair{a: a, b: b, A: A, B: B, pre: pre.String(), bind: bind, mode: mode, bindsS: rb})
+				p1 := &c06Pair{a: a, b: b, A: A, B: B, pre: pre.String(), bind: bind, mode: mode, bindsS: rb}
+				o1 := r.observe(base, p1)
+				{
+					// switch with >= 4 case values, b at position k%4, as a literal (two times of three, when it has one)
+					// or as supplied; the choices are functions of k, not of the PRNG
+					caseExpr := B
+					if l, ok := b.lit(k % 2); ok && (k/4)%3 != 0 {
+						caseExpr = l
+					}
+					r.wide(base, p1, o1, caseExpr, []int{k % 4}, k%2 == 0)
+				}
 				r.observe(base, &c06Pair{a: b, b: a, A: B, B: A, pre: pre.String(), bind: bind, mode: howB + "/" + howA, bindsS: rb})
 				if k%8 == 0 {
 					r.multi(base, a, b, c06RandValue(c.Rng))
 				}
+			}
+			// views of one backing array (after the pairs, so that their PRNG draws are unchanged)
+			for k := 0; k < 6; k++ {
+				r.randViews(base, c.Rng)
 			}
 		},
 	})
